@@ -8,7 +8,7 @@ CONSTANTS
  CAPS = {0}
  Q0 = 10
  CHUNKS = {0,3,5}
- OFFS = {0}
+ OFFS = {0,9,13,14,19,25}
  KINDS = {"int"}
  SETTERS = {}
  DEPTH = 5
